@@ -334,7 +334,7 @@ func (w *World) Enabled() []Op {
 	if pc := w.part(); pc != nil {
 		active, completed, rejected := pc.VerifAllApplications()
 		type ta struct {
-			id string
+			id     string
 			ph, st bool
 		}
 		var tas []ta
@@ -886,7 +886,9 @@ func (w *World) absorb(st *Step) {
 
 // ---------------------------------------------------------------- raw message builders (recovery replay, malformed catalogue)
 
-func (w *World) RawAsk(a *AskSpec, res Res, node string) *si.Allocation { return w.askToSI(a, res, node) }
+func (w *World) RawAsk(a *AskSpec, res Res, node string) *si.Allocation {
+	return w.askToSI(a, res, node)
+}
 
 func (w *World) RawApp(a *AppSpec, force bool) *si.AddApplicationRequest {
 	c := *a
